@@ -20,9 +20,12 @@ def _dyadic_generator(num_items, total_budget):
             key, wkey, vkey = jax.random.split(key, 3)
             weights = jax.random.randint(wkey, (self.num_items,), 0, 64).astype(jnp.float32) / 64.0
             values = jax.random.randint(vkey, (self.num_items,), 0, 64).astype(jnp.float32) / 64.0
-            return State(weights=weights, values=values,
-                         packed_items=jnp.zeros(self.num_items, dtype=bool),
-                         remaining_budget=jnp.array(self.total_budget, float), key=key)
+            from harness import inject
+            from jumanji.environments.packing.knapsack.generator import RandomGenerator
+
+            return inject.state_like(RandomGenerator(self.num_items, self.total_budget)(key), weights=weights, values=values,
+                                     packed_items=jnp.zeros(self.num_items, dtype=bool),
+                                     remaining_budget=jnp.array(self.total_budget, float), key=key)
 
     return DyadicGenerator(num_items, total_budget)
 
@@ -49,9 +52,12 @@ def _jitter_generator(num_items, total_budget):
                 jit = jax.random.randint(kb, (n,), -3, 4).astype(jnp.float32) * jnp.float32(2.0 ** -24)
                 return jnp.maximum(base + jit, 0.0)
 
-            return State(weights=draw(k1, k2), values=draw(k3, k4),
-                         packed_items=jnp.zeros(n, dtype=bool),
-                         remaining_budget=jnp.array(self.total_budget, float), key=key)
+            from harness import inject
+            from jumanji.environments.packing.knapsack.generator import RandomGenerator
+
+            return inject.state_like(RandomGenerator(n, self.total_budget)(key), weights=draw(k1, k2), values=draw(k3, k4),
+                                     packed_items=jnp.zeros(n, dtype=bool),
+                                     remaining_budget=jnp.array(self.total_budget, float), key=key)
 
     return JitterGenerator(num_items, total_budget)
 
